@@ -1087,10 +1087,16 @@ func loopsConsume(e syntax.Expr) bool {
 // `[\,-x]`: Go reads a range, the third-party parser three items
 var reEscapedRangeBound = regexp.MustCompile(`\\[^0-9xX|*+?.\[\]^$()\\-]-[^\]]`)
 
+var reZeroPadded = regexp.MustCompile(`\{(0[0-9]+(,[0-9]*)?|[0-9]+,0[0-9]+)\}`)
+
 var reQuantNothing = regexp.MustCompile(`\(\?[a-zA-Z-]*\)[*+?{]`)
 
 func supportedByModel(p string) bool {
 	if strings.Contains(p, `\p`) || strings.Contains(p, `\P`) || strings.Contains(p, `\C`) {
+		return false
+	}
+	// `{007}`: Go reads literal text (no leading zeros in a count), the checker's parser a repeat
+	if reZeroPadded.MatchString(p) {
 		return false
 	}
 	// the two parsers disagree: an operator after a flag group / empty group, a posix class as a range bound
@@ -1779,7 +1785,9 @@ var escapes = []string{`\d`, `\w`, `\s`, `\D`, `\W`, `\S`, `\.`, `\+`, `\,`, `\:
 var classItems = []string{"a", "b", "c", "x", "-", "]", "^", "[", ":", "+", ",", ".", "{", "}", "0", "1", `\.`, `\-`, `\]`, `\d`, `\s`, `\w`, `\S`, `\n`,
 	"[:space:]", "[:^space:]", "[:word:]", "[:digit:]", "[:alpha:]", "[:^digit:]", "0-9", "a-c", "a-a", "a-b", "+--", ",--", "a-z", "❤", `\:`, `\,`, "|", "*", "?", "$", "(", ")", " ",
 	// ranges between multi-byte runes, with different distances between their first bytes
-	"а-я", "а-в", "α-γ", "é-ë", "❤-❥", "一-三", "я", "é"}
+	"а-я", "а-в", "α-γ", "é-ë", "❤-❥", "一-三", "я", "é",
+	// escapes of every kind as class items
+	`\1`, `\12`, `\075`, `\0`, `\x41`, `\x{41}`, `\pL`, `\p{Lu}`, `\PL`}
 
 // every escapable ASCII punctuation rune, escaped ('_' is a word character: not escapable)
 var punctEscapes = func() []string {
@@ -2045,6 +2053,59 @@ func generatePatterns(tier string, seed int64) ([]string, []string, map[string]i
 		}
 		if add(p, "mutate") {
 			n++
+		}
+	}
+	// neighbourhoods in which an emitted text would read differently: a one-member class / group / {1} around an escape of
+	// every kind followed by a digit or hex-digit atom, and repeats next to the atom they repeat, with counts at the limits
+	// and counts Go does not accept as counts (zero-padded, signed, spaced: literal text for Go)
+	{
+		nr := common.NewRand(seed, "c11-neighbours")
+		escs := []string{`\0`, `\1`, `\7`, `\12`, `\07`, `\123`, `\x41`, `\x4a`, `\x{41}`, `\x{4}`, `\pL`, `\p{Lu}`, `\PN`, `\-`, `\.`, `\d`, `\n`}
+		after := []string{"0", "1", "3", "7", "8", "a", "F", "b", "0*", "1{2}", "7?", "[0-7]", "(?:1)", "{"}
+		wrapE := []string{"[%s]", "[%s]", "(?:%s)", "%s{1}", "(?:[%s])", "[%s]{1}", "[^%s]"}
+		ctx := []string{"%s", "%s", "(%s)", "(?:%s)x", "(?i:%s)", "a|%s", "^%s$", "(?P<n>%s)|b"}
+		for n, tries := 0, 0; n < 70*scale && tries < 4000*scale; tries++ {
+			p := fmt.Sprintf(wrapE[nr.Intn(len(wrapE))], escs[nr.Intn(len(escs))]) + after[nr.Intn(len(after))]
+			p = fmt.Sprintf(ctx[nr.Intn(len(ctx))], p)
+			if add(p, "neighbours") {
+				n++
+			}
+		}
+		atoms := []string{"a", "a", "[ab]", `\d`, "(?:ab)", ".", "❤", `\.`}
+		counts := []string{"0", "1", "2", "3", "999", "1000", "007", "01", "00", " 7", "+7", "7 ", "-1", "1000"}
+		for n, tries := 0, 0; n < 70*scale && tries < 4000*scale; tries++ {
+			x := atoms[nr.Intn(len(atoms))]
+			c := counts[nr.Intn(len(counts))]
+			var rep string
+			switch nr.Intn(4) {
+			case 0:
+				rep = "{" + c + "}"
+			case 1:
+				rep = "{" + c + ",}"
+			case 2:
+				rep = "{" + c + "," + counts[nr.Intn(len(counts))] + "}"
+			default:
+				rep = "{" + c + "}"
+			}
+			var p string
+			switch nr.Intn(6) {
+			case 0:
+				p = x + rep + x + "?"
+			case 1:
+				p = x + x + rep
+			case 2:
+				p = x + rep + x + "*"
+			case 3:
+				p = x + rep + "?" + x + "?"
+			case 4:
+				p = x + rep + x + "??"
+			default:
+				p = x + "?" + x + rep
+			}
+			p = fmt.Sprintf(ctx[nr.Intn(len(ctx))], p)
+			if add(p, "neighbours") {
+				n++
+			}
 		}
 	}
 	// every rewrite rule (and every guard that blocks one) reached by a quota of patterns: one small instance of the
